@@ -263,6 +263,9 @@ type Helper struct {
 	X int
 }
 
+//«annK»
+type HelperID string
+
 //«annF»
 func Mock() int { return 1 }
 
@@ -381,6 +384,12 @@ const c03SrcE10 = `package d
 var l10 HelperList // E10-ALIAS-OF-COMPOSITE
 `
 
+// a @testonly defined type with a BASIC underlying type that occurs only as a map key
+const c03SrcE13 = `package d
+
+var byID map[HelperID]int // E13-BASIC-MAPKEY
+`
+
 const c03SrcE11 = `package d
 
 var m11 map[string]HelperList // E11-NESTED-ALIAS-OF-COMPOSITE
@@ -441,8 +450,9 @@ func ZZC03Edge() {
 	annF := nd.EnumPad("annF", " @testonly", " plain")
 	annW := nd.EnumPad("annW", " @testonly", " plain")
 	annM := nd.EnumPad("annM", " @testonly", " plain")
-	holes := []nd.Hole{{"annH", annH}, {"annF", annF}, {"annW", annW}, {"annM", annM}}
-	files := []nd.File{{Pkg: "zzmod/d", Name: "d.go", Src: c03SrcED}, {Pkg: "zzmod/d", Name: "e1.go", Src: c03SrcE1}, {Pkg: "zzmod/d", Name: "e2.go", Src: c03SrcE2},
+	annK := nd.EnumPad("annK", " @testonly", " plain")
+	holes := []nd.Hole{{"annH", annH}, {"annF", annF}, {"annW", annW}, {"annM", annM}, {"annK", annK}}
+	files := []nd.File{{Pkg: "zzmod/d", Name: "d.go", Src: c03SrcED}, {Pkg: "zzmod/d", Name: "e13.go", Src: c03SrcE13}, {Pkg: "zzmod/d", Name: "e1.go", Src: c03SrcE1}, {Pkg: "zzmod/d", Name: "e2.go", Src: c03SrcE2},
 		{Pkg: "zzmod/d", Name: "e2b.go", Src: c03SrcE2b}, {Pkg: "zzmod/d", Name: "e3.go", Src: c03SrcE3}, {Pkg: "zzmod/u", Name: "u.go", Src: c03SrcEU},
 		{Pkg: "zzmod/d", Name: "e4.go", Src: c03SrcE4}, {Pkg: "zzmod/d", Name: "e5.go", Src: c03SrcE5}, {Pkg: "zzmod/d", Name: "e6.go", Src: c03SrcE6}, {Pkg: "zzmod/d", Name: "e7.go", Src: c03SrcE7}, {Pkg: "zzmod/d", Name: "e8.go", Src: c03SrcE8}, {Pkg: "zzmod/d", Name: "e9.go", Src: c03SrcE9},
 		{Pkg: "zzmod/d", Name: "e10.go", Src: c03SrcE10}, {Pkg: "zzmod/d", Name: "e11.go", Src: c03SrcE11}, {Pkg: "zzmod/d", Name: "e12.go", Src: c03SrcE12}, {Pkg: "zzmod/v", Name: "v1.go", Src: c03SrcV1}, {Pkg: "zzmod/v", Name: "v2.go", Src: c03SrcV2}}
@@ -490,6 +500,7 @@ func ZZC03Edge() {
 		// through an alias of a composite type, also nested inside another composite type (C13)
 		{"/zz/zzmod/d/e10.go", nd.LineOf(c03SrcE10, "E10-ALIAS-OF-COMPOSITE"), "TONL01", tH},
 		{"/zz/zzmod/d/e11.go", nd.LineOf(c03SrcE11, "E11-NESTED-ALIAS-OF-COMPOSITE"), "TONL01", tH},
+		{"/zz/zzmod/d/e13.go", nd.LineOf(c03SrcE13, "E13-BASIC-MAPKEY"), "TONL01", nd.HasPrefix(annK, " @testonly")},
 		{"/zz/zzmod/d/e12.go", nd.LineOf(c03SrcE12, "E12-SAMEPOS"), "TONL01", tH},
 		{"/zz/zzmod/d/e12.go", nd.LineOf(c03SrcE12, "E12-SAMEPOS"), "TONL03", tM},
 		{f2, nd.LineOf(c03SrcE2, "E2-ELIDED-PTR"), "TONL01", tH},
